@@ -238,6 +238,21 @@ func checkProof(c *Ctx, typ, fld string, p resetProof) string {
 	case "conditional", "constructorOnly":
 		return ""
 	case "mustStore":
+		// the sweep engine's per-run lists are emptied at a run boundary: by the epilogue (clearSolutionOnly) on the
+		// reference tree, or by reset() when the clean-up has been moved to the start of the next run — there the
+		// store has to be a TRUNCATION (reset also appends to some of these lists)
+		if typ == "clipperBase" && p.fn == "(clipperBase).clearSolutionOnly" {
+			if f := c.fnOpt(p.fn); f != nil && mustStoreField(c, f, typ, fld, map[*ssa.Function]int{}) {
+				return ""
+			}
+			if r := c.fnOpt("(clipperBase).reset"); r != nil && mustTruncateField(c, r, typ, fld, 0) {
+				return ""
+			}
+			if c.fnOpt(p.fn) == nil {
+				return fmt.Sprintf("neither %s (no longer declared) nor reset() empties %s.%s on every path", p.fn, typ, fld)
+			}
+			return fmt.Sprintf("%s no longer assigns %s.%s on every path (and reset() does not truncate it either)", p.fn, typ, fld)
+		}
 		f := c.fn(p.fn)
 		if !mustStoreField(c, f, typ, fld, map[*ssa.Function]int{}) {
 			return fmt.Sprintf("%s no longer assigns %s.%s on every path", p.fn, typ, fld)
@@ -572,3 +587,95 @@ func pureDelegate(c *Ctx, f *ssa.Function) ssa.CallInstruction {
 // allowEmbeddedDelegate: set by the rules for which delegation to an embedded struct's method counts (epilogues);
 // the D/64 call-skeleton comparison leaves it off, because there the 64 side would be expanded and the D side not.
 var allowEmbeddedDelegate = false
+
+// mustTruncateField: on every path from f's entry to a return the slice field typ.fld is emptied: assigned x[:0], a
+// fresh make, nil, or slices.Grow(x[:0], n) — directly or by a callee (same receiver type) that does so on all of
+// its paths.
+func mustTruncateField(c *Ctx, f *ssa.Function, typ, fld string, depth int) bool {
+	if f == nil || f.Blocks == nil || depth > 3 {
+		return false
+	}
+	empties := func(v ssa.Value) bool {
+		for k := 0; k < 3; k++ {
+			switch x := v.(type) {
+			case *ssa.Slice:
+				kc, ok := x.High.(*ssa.Const)
+				return ok && kc.Int64() == 0
+			case *ssa.MakeSlice:
+				return true
+			case *ssa.Const:
+				return x.IsNil()
+			case *ssa.Call:
+				if g := x.Call.StaticCallee(); g != nil && len(x.Call.Args) > 0 {
+					n := g.Name()
+					if o := g.Origin(); o != nil {
+						n = o.Name()
+					}
+					if n == "Grow" || n == "Clip" {
+						v = x.Call.Args[0]
+						continue
+					}
+				}
+				return false
+			default:
+				return false
+			}
+		}
+		return false
+	}
+	gen := func(in ssa.Instruction) bool {
+		switch x := in.(type) {
+		case *ssa.Store:
+			if fa, ok := x.Addr.(*ssa.FieldAddr); ok && typeName(fa.X.Type()) == "*"+typ && fieldName(fa.X.Type(), fa.Field) == fld {
+				return empties(x.Val)
+			}
+		case ssa.CallInstruction:
+			if g := x.Common().StaticCallee(); g != nil && g != f && c.inRepo(g) && g.Signature.Recv() != nil && strings.TrimPrefix(typeName(g.Signature.Recv().Type()), "*") == typ {
+				return mustTruncateField(c, g, typ, fld, depth+1)
+			}
+		}
+		return false
+	}
+	in := map[*ssa.BasicBlock]bool{}
+	out := map[*ssa.BasicBlock]bool{}
+	genB := map[*ssa.BasicBlock]bool{}
+	for _, b := range f.Blocks {
+		in[b], out[b] = true, true
+		for _, ins := range b.Instrs {
+			if gen(ins) {
+				genB[b] = true
+			}
+		}
+	}
+	in[f.Blocks[0]] = false
+	out[f.Blocks[0]] = genB[f.Blocks[0]]
+	for changed := true; changed; {
+		changed = false
+		for _, b := range f.Blocks {
+			ni := b != f.Blocks[0]
+			if ni {
+				for _, pr := range b.Preds {
+					ni = ni && out[pr]
+				}
+			}
+			no := ni || genB[b]
+			if ni != in[b] || no != out[b] {
+				in[b], out[b] = ni, no
+				changed = true
+			}
+		}
+	}
+	rets := 0
+	for _, b := range f.Blocks {
+		if len(b.Instrs) == 0 {
+			continue
+		}
+		if _, isRet := b.Instrs[len(b.Instrs)-1].(*ssa.Return); isRet {
+			rets++
+			if !out[b] {
+				return false
+			}
+		}
+	}
+	return rets > 0
+}
